@@ -28,7 +28,7 @@ THRESHOLDS = {"quick": {"c06:adj-configs": 1944, "c06:path-configs": 9072, "c06:
                         "c06:full:SolvedMaze": 400, "c06:pairwise-covering-configs": 300, "c06:pairs-covered-permille": 1000,
                         "c06:isolated-cells": 300, "c06:one-cell-solution": 200, "c06:forks-on-route": 500,
                         **{f"c06:delim:{d}": 100 for d in td.DELIMS}, "c06:relative:LEFT": 100, "c06:relative:RIGHT": 100,
-                        "c06:relative:FORWARD": 100, "c06:relative:BACKWARD": 5, "c06:both-orientations": 300, "c06:walls-subset": 300, "c06:adj-grid>=12": 100}}
+                        "c06:relative:FORWARD": 100, "c06:relative:BACKWARD": 5, "c06:both-orientations": 300, "c06:walls-subset": 300, "c06:adj-grid>=12": 100, "c06:threaded-tokenizations": 200}}
 THRESHOLDS["thorough"] = dict(THRESHOLDS["quick"])
 ANCHORS = ["maze_dataset.tokenization.maze_tokenizer:AdjListTokenizers._AdjListTokenizer.to_tokens",
            "maze_dataset.tokenization.maze_tokenizer:AdjListTokenizers._AdjListTokenizer._tokenize_edge_grouping",
@@ -273,6 +273,47 @@ def run(ctx):
                     ctx.violation(f"{mech}/exception/{type(ex).__name__}", traceback.format_exc()[-1200:], case)
         if j < 2:
             ctx.sample(dict(region="full", params=p, name=ts.name_of(p)))
+    # ---- several threads tokenizing mazes of one size with one tokenizer at the same time: every stream is still judged on its own ----
+    if ctx.mine(5) or ctx.mine(9):
+        import sys as _sys
+        from concurrent.futures import ThreadPoolExecutor
+
+        old_si = _sys.getswitchinterval()
+        _sys.setswitchinterval(1e-5)     # frequent hand-offs between the threads
+        try:
+            trng = ctx.sub_rng("threads", ctx.shard)
+            tcfgs = [dict(seq="AOTP", coord="UT", adj_cls="AdjListCoord", adj_post=True, adj_shuffle=True, ordinal=1, subset="all", permuter="random",
+                          tgt_post=False, step_size="Singles", steps=("Coord",), p_pre=False, p_intra=False, p_post=False),
+                     dict(seq="AOP", coord=("CTT", True, True, True), adj_cls="AdjListCardinal", adj_post=False, adj_shuffle=True, ordinal=0, subset="all", permuter="both",
+                          tgt_post=False, step_size="Forks", steps=("Cardinal", "Distance"), p_pre=True, p_intra=True, p_post=False),
+                     ts.random_params(trng), ts.random_params(trng)]
+            for p in tcfgs:
+                with warnings.catch_warnings():
+                    warnings.simplefilter("ignore")
+                    tok = ts.build_tokenizer(p)
+                n = 12
+                work = []
+                for (cl, s, e, sol, fam) in mazes_for(trng, n, 10):
+                    work.append((cl, s, e, sol, lib.solved(cl, sol)))
+                with ThreadPoolExecutor(max_workers=4) as ex:
+                    outs = list(ex.map(lambda w: list(tok.to_tokens(w[4])), work * 3))
+                ctx.tally("c06:threaded-tokenizations", len(outs))
+                for (cl, s, e, sol, _m), toks in zip(work * 3, outs):
+                    g = Graph(cl)
+                    case = dict(region="full", params=p, n=n, kind="SolvedMaze", threaded=True)
+                    mech = "C06/full/SolvedMaze/threaded"
+                    try:
+                        ctx.ev()
+                        if not vocab_ok(ctx, toks, VOC, mech, case):
+                            continue
+                        reg = td.split_regions(toks, "SolvedMaze")
+                        check_adj(ctx, td.decode_adj(reg["adj"], p), g, p, mech + "/adj", case)
+                        lead, steps = td.decode_path(reg["path"], p)
+                        check_path(ctx, lead, steps, sol, g, p, mech + "/path", case)
+                    except td.DecodeError as ex2:
+                        ctx.violation(f"{mech}/undecodable", f"{ex2}; tokens {toks[:40]}", case)
+        finally:
+            _sys.setswitchinterval(old_si)
     # ---- hostile: a corridor longer than the largest distance token -----------------
     if ctx.mine(3):
         cl = ref.serpentine(17, 17); g = Graph(cl); sol = g.shortest_path((0, 0), (16, 16))
